@@ -115,6 +115,59 @@ Qed.
 Lemma mem_false k l : mem k l = false <-> ~ In k l.
 Proof. rewrite <- mem_In. destruct (mem k l); split; congruence. Qed.
 
+Lemma lookup_notin {V} k (l : list (nat * V)) : ~ In k (keys l) -> lookup k l = None.
+Proof. apply lookup_None_keys. Qed.
+
+Lemma lookup_filter_snd {V} (f : V -> bool) k (l : list (nat * V)) :
+  NoDup (keys l) ->
+  lookup k (filter (fun rp => f (snd rp)) l)
+  = match lookup k l with Some v => if f v then Some v else None | None => None end.
+Proof.
+  unfold keys. induction l as [|[k' v'] r IH]; cbn; intros N; [reflexivity|].
+  inversion N as [|? ? Nk Nr]; subst. destruct (k' =? k)%nat eqn:E.
+  - apply Nat.eqb_eq in E; subst k'. destruct (f v') eqn:F; cbn; [rewrite Nat.eqb_refl; reflexivity|].
+    rewrite (IH Nr). rewrite (lookup_notin k r Nk). reflexivity.
+  - destruct (f v'); cbn; [rewrite E|]; apply IH; exact Nr.
+Qed.
+
+Lemma keys_filter_subset {V} (f : nat * V -> bool) k (l : list (nat * V)) : In k (keys (filter f l)) -> In k (keys l).
+Proof.
+  unfold keys. intros H. apply in_map_iff in H as [x [E H]]. apply filter_In in H as [H _].
+  apply in_map_iff. exists x. split; assumption.
+Qed.
+
+Lemma NoDup_keys_filter {V} (f : nat * V -> bool) (l : list (nat * V)) : NoDup (keys l) -> NoDup (keys (filter f l)).
+Proof.
+  unfold keys. induction l as [|[k v] r IH]; cbn; intros N; [constructor|]. inversion N as [|? ? Nk Nr]; subst.
+  destruct (f (k, v)); cbn; [|apply IH; exact Nr]. constructor; [|apply IH; exact Nr].
+  intros H. apply Nk. exact (keys_filter_subset f k r H).
+Qed.
+
+Lemma keys_remove_subset0 {V} k k' (l : list (nat * V)) : In k' (keys (remove k l)) -> In k' (keys l).
+Proof.
+  unfold keys. induction l as [|[k2 v2] r IH]; cbn; [contradiction|]. destruct (k2 =? k)%nat; cbn.
+  - intros H; right; apply IH; exact H.
+  - intros [H|H]; [left; exact H|right; apply IH; exact H].
+Qed.
+
+Lemma NoDup_keys_remove {V} k (l : list (nat * V)) : NoDup (keys l) -> NoDup (keys (remove k l)).
+Proof.
+  unfold keys. induction l as [|[k2 v2] r IH]; cbn; intros N; [constructor|]. inversion N as [|? ? Nk Nr]; subst.
+  destruct (k2 =? k)%nat; cbn; [apply IH; exact Nr|]. constructor; [|apply IH; exact Nr].
+  intros H. apply Nk. exact (keys_remove_subset0 k k2 r H).
+Qed.
+
+Lemma lookup_purge s r p l :
+  NoDup (keys l) -> (lookup r (purge s l) = Some p <-> lookup r l = Some p /\ p_subj p <> s).
+Proof.
+  intros N. unfold purge, rid. pose proof (lookup_filter_snd (fun q => negb (p_subj q =? s)%nat) r l N) as E0.
+  cbn beta in E0. rewrite E0. clear E0.
+  destruct (lookup r l) as [q|]; [|split; [discriminate|intros [H _]; discriminate]].
+  destruct (p_subj q =? s)%nat eqn:E; cbn.
+  - apply Nat.eqb_eq in E. split; [discriminate|intros [H Q]; injection H as <-; contradiction].
+  - apply Nat.eqb_neq in E. split; [intros H; injection H as <-; split; [reflexivity|exact E]|intros [H _]; exact H].
+Qed.
+
 (* ================================================================ reading the model's own view *)
 Lemma subjects_keys st : map fst (v_subjects (view_of st)) = keys (db st).
 Proof. cbn. apply (keys_map_snd (fun l : list (issuer * entry) => keys l)). Qed.
@@ -174,7 +227,7 @@ Qed.
 (* ================================================================ frame properties of the logout code *)
 Lemma local_logout_some st s st' :
   local_logout st s = Some st' ->
-  lookup s (db st) <> None /\ db st' = remove s (db st) /\ now st' = now st /\ pend st' = pend st
+  lookup s (db st) <> None /\ db st' = remove s (db st) /\ now st' = now st /\ pend st' = purge s (pend st)
   /\ heap st' = heap st /\ next_rid st' = next_rid st /\ next_ref st' = next_ref st.
 Proof.
   unfold local_logout. destruct (lookup s (db st)) eqn:E; [|discriminate]. intros H; injection H as <-.
@@ -194,18 +247,19 @@ Definition loop_post (st st' : state) (s : subj) (ref : nat) (dl : option Z) (l 
   db st' = db st /\ now st' = now st /\ heap st' = heap st /\ next_ref st' = next_ref st /\
   exists news, pend st' = pend st ++ news /\ (next_rid st <= next_rid st')%nat
                /\ fresh_entries st s ref dl l news
-               /\ (forall r p, In (r, p) news -> (r < next_rid st')%nat).
+               /\ (forall r p, In (r, p) news -> (r < next_rid st')%nat)
+               /\ NoDup (keys news).
 
 Lemma loop_post_refl st s ref dl l : loop_post st st s ref dl l.
 Proof.
   unfold loop_post. do 4 (split; [reflexivity|]). exists []. rewrite app_nil_r.
-  split; [reflexivity|]. split; [lia|]. split; intros r p [].
+  split; [reflexivity|]. split; [lia|]. split; [intros r p []|]. split; [intros r p []|constructor].
 Qed.
 
 Lemma loop_post_weaken st st' s ref dl e l : loop_post st st' s ref dl l -> loop_post st st' s ref dl (e :: l).
 Proof.
-  intros (A & B & C & D & news & E & F & G & K). unfold loop_post. do 4 (split; [assumption|]).
-  exists news. do 2 (split; [assumption|]). split; [|exact K].
+  intros (A & B & C & D & news & E & F & G & K & ND). unfold loop_post. do 4 (split; [assumption|]).
+  exists news. do 2 (split; [assumption|]). split; [|split; [exact K|exact ND]].
   intros r p Hr. destruct (G r p Hr) as (G1 & G2 & G3 & G4 & G5).
   do 4 (split; [assumption|]). right; exact G5.
 Qed.
@@ -214,7 +268,7 @@ Lemma loop_post_add st st' s ref dl e l :
   loop_post (add_pending st {| p_entity := e; p_ref := ref; p_subj := s; p_expire := dl |}) st' s ref dl l ->
   loop_post st st' s ref dl (e :: l).
 Proof.
-  intros (A & B & C & D & news & E & F & G & K). cbn in A, B, C, D, E, F. unfold loop_post.
+  intros (A & B & C & D & news & E & F & G & K & ND). cbn in A, B, C, D, E, F. unfold loop_post.
   do 4 (split; [assumption|]).
   exists ((next_rid st, {| p_entity := e; p_ref := ref; p_subj := s; p_expire := dl |}) :: news).
   split; [rewrite E, <- app_assoc; reflexivity|]. split; [lia|]. split.
@@ -222,7 +276,9 @@ Proof.
     + injection Hr as <- <-. cbn. split; [lia|]. do 3 (split; [reflexivity|]). left; reflexivity.
     + destruct (G r p Hr) as (G1 & G2 & G3 & G4 & G5). cbn in G1. split; [lia|].
       do 3 (split; [assumption|]). right; exact G5.
-  - intros r p [Hr|Hr]; [injection Hr as <- <-; lia|exact (K r p Hr)].
+  - split; [intros r p [Hr|Hr]; [injection Hr as <- <-; lia|exact (K r p Hr)]|].
+    cbn. constructor; [|exact ND]. intros Hin. apply in_map_iff in Hin as [[r p] [Er Hin]]. cbn in Er. subst r.
+    destruct (G _ p Hin) as (G1 & _). cbn in G1. lia.
 Qed.
 
 Lemma logout_loop_frame w ans s ref dl l : forall st nd acc st' res,
@@ -305,6 +361,8 @@ Proof.
   { intros H; injection H as <- _. split; [apply dbc_same|]; reflexivity. }
   destruct (lookup r (pend st)) as [p|].
   2:{ intros H; injection H as <- _. split; [apply dbc_same|]; reflexivity. }
+  destruct (negb (p_entity p =? i)%nat).
+  { intros H; injection H as <- _. split; [apply dbc_same|]; reflexivity. }
   cbn [set_pend heap]. destruct (list_eqb (heap st (p_ref p)) [i]).
   - destruct (local_logout _ (p_subj p)) as [st2|] eqn:L.
     + intros H; injection H as <- _. apply local_logout_some in L as (A1 & A2 & A3 & _). cbn in A1, A2, A3.
@@ -328,7 +386,7 @@ Qed.
 Lemma KInv_db_change st st' g k :
   KInv st g -> db_change (db st) (db st') -> now st' = now st ->
   KInv st' {| g_now := g_now g; g_know := fun s i => if present (view_of st') s then g_know g s i else None;
-              g_txn := k; g_owner := g_owner g; g_ntxn := g_ntxn g |} .
+              g_txn := k; g_owner := g_owner g; g_moot := g_moot g; g_ntxn := g_ntxn g |} .
 Proof.
   intros [N K] C T. split; [cbn; congruence|]. cbn [g_know]. intros s i l e t Hs Hi Ht.
   assert (P : present (view_of st') s = true) by (apply present_view; congruence). rewrite P.
@@ -344,7 +402,7 @@ Lemma KInv_store st g k s i nooa ot :
        {| g_now := g_now g;
           g_know := fun s' i' => if present (view_of (store st s i nooa ot)) s'
                                  then know_set (g_know g) s i (option_map (pair nooa) ot) s' i' else None;
-          g_txn := k; g_owner := g_owner g; g_ntxn := g_ntxn g |}.
+          g_txn := k; g_owner := g_owner g; g_moot := g_moot g; g_ntxn := g_ntxn g |}.
 Proof.
   intros [N K]. split; [exact N|]. cbn [g_know]. intros s' i' l e t Hs Hi Ht.
   assert (P : present (view_of (store st s i nooa ot)) s' = true) by (apply present_view; congruence). rewrite P.
@@ -483,6 +541,8 @@ Proof.
     unfold handle_logout_response in H. destruct (negb success).
     { injection H as _ <-. destruct Hou; discriminate. }
     destruct (lookup r (pend st)) as [p|]; [|discriminate]. cbn in C. injection C as <-.
+    destruct (negb (p_entity p =? i)%nat).
+    { injection H as _ <-. destruct Hou; discriminate. }
     cbn [set_pend heap] in H. destruct (list_eqb (heap st (p_ref p)) [i]).
     + destruct (local_logout _ (p_subj p)) as [st2|] eqn:L; injection H as <- <-.
       * eapply removed_absent; exact L.
@@ -526,6 +586,18 @@ Proof. intros K s P _. apply K; [exact P|discriminate]. Qed.
 Lemma no_new_weaken vb va s0 : no_new vb va None -> no_new vb va (Some s0).
 Proof. intros K s P _. apply K; [exact P|discriminate]. Qed.
 
+Lemma pend_kept_same vb va e : v_pending va = v_pending vb -> pend_kept vb va e.
+Proof. intros E. unfold pend_kept. rewrite E. split; auto. Qed.
+
+Lemma pend_kept_purge st st' s :
+  pend st' = purge s (pend st) -> heap st' = heap st -> pend_kept (view_of st) (view_of st') (Some s).
+Proof.
+  intros Ep Eh. unfold pend_kept. cbn [view_of v_pending]. rewrite Ep, Eh. unfold purge. split.
+  - intros rp H. apply in_map_iff in H as [x [E H]]. apply filter_In in H as [H _]. apply in_map_iff. exists x. auto.
+  - intros rp H N. apply in_map_iff in H as [x [E H]]. apply in_map_iff. exists x. split; [exact E|].
+    apply filter_In. split; [exact H|]. apply negb_true_iff, Nat.eqb_neq. intros X. apply N. subst rp. cbn. rewrite X. reflexivity.
+Qed.
+
 Lemma request_clause w st g o st' ou :
   step w st o = (st', ou) -> cl_request w g (view_of st) o ou (view_of st').
 Proof.
@@ -537,17 +609,17 @@ Proof.
       apply local_logout_some in L as (A1 & A2 & A3 & A4 & A5 & _).
       destruct (frame_remove st st' cur A2) as [K Nn].
       split; [exact K|]. split; [exact Nn|]. split; [intros _; exact Ab|].
-      split; [intros _; split; [reflexivity|apply present_view; exact A1]|apply pending_view_same; assumption].
+      split; [intros _; split; [reflexivity|apply present_view; exact A1]|apply pend_kept_purge; assumption].
     + assert (st' = st) by (destruct (existsb _ _); inversion H; reflexivity). subst st'.
       apply local_logout_none in L.
       destruct (frame_same st st None eq_refl) as [K Nn].
       split; [apply keeps_weaken; exact K|]. split; [exact Nn|].
       split; [intros _; apply present_view_false; exact L|].
-      split; [|reflexivity]. intros ->. destruct (existsb _ _); inversion H.
+      split; [|apply pend_kept_same; reflexivity]. intros ->. destruct (existsb _ _); inversion H.
   - assert (st' = st) by (destruct (existsb _ _); inversion H; reflexivity). subst st'.
     destruct (frame_same st st None eq_refl) as [K Nn].
     split; [exact K|]. split; [exact Nn|]. apply Nat.eqb_neq in E.
-    split; [intros X; congruence|]. split; [|reflexivity]. intros ->. destruct (existsb _ _); inversion H.
+    split; [intros X; congruence|]. split; [|apply pend_kept_same; reflexivity]. intros ->. destruct (existsb _ _); inversion H.
 Qed.
 
 (* ================================================================ unguarded clauses along every history *)
@@ -688,6 +760,9 @@ Qed.
 (* ================================================================ the bookkeeping invariant *)
 Definition db_wf (c : cache) : Prop := forall s l, lookup s c = Some l -> NoDup (keys l) /\ keys l <> [].
 
+(* L_pend is the direction that the fixes de5f1fed / 73294247 make true: every request the client still
+   keeps belongs to a logout IN PROGRESS and is either open for its addressee or moot (the addressee has
+   answered through another request of the same logout). *)
 Record LInv (w : world) (st : state) (g : ghost) : Prop := {
   L_now : g_now g = now st;
   L_ntxn : g_ntxn g = next_ref st;
@@ -699,11 +774,16 @@ Record LInv (w : world) (st : state) (g : ghost) : Prop := {
             /\ In a (t_wait T);
   L_own_lt : forall r n a, g_owner g r = Some (n, a) -> (n < g_ntxn g)%nat;
   L_rid : forall r p, lookup r (pend st) = Some p -> (r < next_rid st)%nat;
-  L_db : db_wf (db st)
+  L_db : db_wf (db st);
+  L_nodup : NoDup (keys (pend st));
+  L_pend : forall r p, lookup r (pend st) = Some p ->
+             exists T, g_txn g (p_ref p) = Some T /\ t_subj T = p_subj p /\
+               (g_owner g r = Some (p_ref p, p_entity p)
+                \/ (g_owner g r = None /\ g_moot g r = Some (p_ref p, p_entity p)))
 }.
 
 Lemma LInv_init w t0 : LInv w (init t0) (ghost0 t0).
-Proof. constructor; cbn; try reflexivity; try discriminate. Qed.
+Proof. constructor; cbn; try reflexivity; try discriminate. constructor. Qed.
 
 Lemma close_txn_some va tx n T :
   close_txn va tx n = Some T <-> tx n = Some T /\ present va (t_subj T) = true.
@@ -728,21 +808,60 @@ Proof.
   - rewrite lookup_update_neq in H by exact Ne. exact (W s' l H).
 Qed.
 
+(* steps that start or advance no logout: pending entries may only disappear together with their subject *)
 Lemma LInv_base w st st' g nw kn :
-  LInv w st g -> nw = now st' -> pend st' = pend st -> heap st' = heap st ->
-  next_rid st' = next_rid st -> next_ref st' = next_ref st -> db_wf (db st') ->
+  LInv w st g -> nw = now st' ->
+  (forall r p, lookup r (pend st') = Some p -> lookup r (pend st) = Some p /\ lookup (p_subj p) (db st') <> None) ->
+  (forall r p, lookup r (pend st) = Some p -> lookup (p_subj p) (db st') <> None -> lookup r (pend st') = Some p) ->
+  NoDup (keys (pend st')) ->
+  heap st' = heap st -> next_rid st' = next_rid st -> next_ref st' = next_ref st -> db_wf (db st') ->
   LInv w st' {| g_now := nw; g_know := kn; g_txn := close_txn (view_of st') (g_txn g);
-                g_owner := g_owner g; g_ntxn := g_ntxn g |}.
+                g_owner := g_owner g; g_moot := g_moot g; g_ntxn := g_ntxn g |}.
 Proof.
-  intros I En Ep Eh Er Ef W. destruct I as [I1 I2 I3 I4 I5 I6 I7]. constructor; cbn.
+  intros I En Hp1 Hp2 ND Eh Er Ef W. destruct I as [I1 I2 I3 I4 I5 I6 I7 I8 I9]. constructor; cbn.
   - exact En.
   - congruence.
   - intros n T H. apply close_txn_some in H as [H P]. destruct (I3 n T H) as (A & B & C & D & E).
     split; [congruence|]. split; [congruence|]. split; [apply present_view; exact P|]. split; assumption.
-  - intros r n a T Ho H. apply close_txn_some in H as [H P]. rewrite Ep. exact (I4 r n a T Ho H).
+  - intros r n a T Ho H. apply close_txn_some in H as [H P]. destruct (I4 r n a T Ho H) as [L Hin]. split; [|exact Hin].
+    apply Hp2; [exact L|]. cbn. apply present_view; exact P.
   - exact I5.
-  - intros r p H. rewrite Ep in H. rewrite Er. exact (I6 r p H).
+  - intros r p H. destruct (Hp1 r p H) as [H0 _]. rewrite Er. exact (I6 r p H0).
   - exact W.
+  - exact ND.
+  - intros r p H. destruct (Hp1 r p H) as [H0 Pd]. destruct (I9 r p H0) as (T & HT & Hs & Ho). exists T.
+    split; [apply close_txn_some; split; [exact HT|rewrite Hs; apply present_view; exact Pd]|]. split; assumption.
+Qed.
+
+Lemma LInv_same_pend w st st' g nw kn :
+  LInv w st g -> nw = now st' -> pend st' = pend st -> heap st' = heap st ->
+  next_rid st' = next_rid st -> next_ref st' = next_ref st -> db_wf (db st') ->
+  (forall s, lookup s (db st) <> None -> lookup s (db st') <> None) ->
+  LInv w st' {| g_now := nw; g_know := kn; g_txn := close_txn (view_of st') (g_txn g);
+                g_owner := g_owner g; g_moot := g_moot g; g_ntxn := g_ntxn g |}.
+Proof.
+  intros I En Ep Eh Er Ef W Hdb. apply (LInv_base w st); try assumption.
+  - intros r p H. rewrite Ep in H. split; [exact H|]. destruct (L_pend _ _ _ I r p H) as (T & HT & Hs & _).
+    destruct (L_txn _ _ _ I _ T HT) as (_ & _ & C & _). apply Hdb. rewrite <- Hs. exact C.
+  - intros r p H _. rewrite Ep. exact H.
+  - rewrite Ep. apply (L_nodup _ _ _ I).
+Qed.
+
+Lemma LInv_logged_out w st st' g s nw kn :
+  LInv w st g -> local_logout st s = Some st' -> nw = now st' ->
+  LInv w st' {| g_now := nw; g_know := kn; g_txn := close_txn (view_of st') (g_txn g);
+                g_owner := g_owner g; g_moot := g_moot g; g_ntxn := g_ntxn g |}.
+Proof.
+  intros I L En. apply local_logout_some in L as (A1 & A2 & A3 & A4 & A5 & A6 & A7).
+  pose proof (L_nodup _ _ _ I) as ND.
+  apply (LInv_base w st); try assumption.
+  - intros r p H. rewrite A4 in H. apply (lookup_purge s r p _ ND) in H as [H N]. split; [exact H|].
+    rewrite A2, lookup_remove_neq by exact N. destruct (L_pend _ _ _ I r p H) as (T & HT & Hs & _).
+    destruct (L_txn _ _ _ I _ T HT) as (_ & _ & C & _). rewrite <- Hs. exact C.
+  - intros r p H P. rewrite A4. apply (lookup_purge s r p _ ND). split; [exact H|].
+    intros X. rewrite X, A2, lookup_remove_eq in P. apply P; reflexivity.
+  - rewrite A4. apply NoDup_keys_filter; exact ND.
+  - rewrite A2. apply db_wf_remove, (L_db _ _ _ I).
 Qed.
 
 Definition GStep (w : world) (st : state) (g : ghost) (o : op) (st' : state) (ou : out) : Prop :=
@@ -762,14 +881,19 @@ Proof.
     rewrite lookup_update_neq in P; [exact P|]. intros ->. apply N; reflexivity.
 Qed.
 
+Lemma keeps_db st st' : keeps (view_of st) (view_of st') None ->
+  forall s, lookup s (db st) <> None -> lookup s (db st') <> None.
+Proof. intros K s H. apply present_view. apply K; [apply present_view; exact H|discriminate]. Qed.
+
 Lemma GStep_store w st g o s i nooa ot ou :
   LInv w st g ->
   (match o with Login s' _ _ _ | AcceptResponse s' _ _ _ _ _ | Reset s' _ => s' = s | _ => False end) ->
   GStep w st g o (store st s i nooa ot) ou.
 Proof.
   intros I Ho. destruct (frame_store st s i nooa ot) as (K & N & P).
-  assert (L : LInv w (store st s i nooa ot) (base_ghost g o ou (view_of (store st s i nooa ot)) (g_txn g) (g_owner g) (g_ntxn g))).
-  { apply (LInv_base w st); try reflexivity; [exact I| |apply db_wf_set; apply (L_db _ _ _ I)].
+  assert (L : LInv w (store st s i nooa ot)
+                (base_ghost g o ou (view_of (store st s i nooa ot)) (g_txn g) (g_owner g) (g_moot g) (g_ntxn g))).
+  { apply (LInv_same_pend w st); try reflexivity; [exact I| |apply db_wf_set; apply (L_db _ _ _ I)|apply keeps_db; exact K].
     destruct o; try contradiction; cbn; apply (L_now _ _ _ I). }
   destruct o; try contradiction; subst; (split; [exact Logic.I|split; [|exact L]]); cbn; auto.
 Qed.
@@ -781,12 +905,12 @@ Lemma GStep_same w st g o ou :
   GStep w st g o st ou.
 Proof.
   intros I Ho. destruct (frame_same st st None eq_refl) as (K & N).
-  assert (L : LInv w st (base_ghost g o ou (view_of st) (g_txn g) (g_owner g) (g_ntxn g))).
-  { apply (LInv_base w st); try reflexivity; [exact I| |apply (L_db _ _ _ I)].
+  assert (L : LInv w st (base_ghost g o ou (view_of st) (g_txn g) (g_owner g) (g_moot g) (g_ntxn g))).
+  { apply (LInv_same_pend w st); try reflexivity; [exact I| |apply (L_db _ _ _ I)|auto].
     destruct o; try contradiction; cbn; apply (L_now _ _ _ I). }
   destruct o; try contradiction; (split; [exact Logic.I|split; [|exact L]]); cbn; auto.
   - split; [exact K|]. split; [apply no_new_weaken; exact N|reflexivity].
-  - split; [apply keeps_weaken; exact K|]. split; [exact N|reflexivity].
+  - split; [apply keeps_weaken; exact K|]. split; [exact N|apply pend_kept_same; reflexivity].
 Qed.
 
 Lemma GStep_removed w st g o s st' ou :
@@ -794,13 +918,15 @@ Lemma GStep_removed w st g o s st' ou :
   (match o with LogoutRequest _ _ _ _ => True | LocalLogout s' => s' = s | _ => False end) ->
   GStep w st g o st' ou.
 Proof.
-  intros I L Ho. apply local_logout_some in L as (A1 & A2 & A3 & A4 & A5 & A6 & A7).
-  destruct (frame_remove st st' s A2) as (K & N).
-  assert (Li : LInv w st' (base_ghost g o ou (view_of st') (g_txn g) (g_owner g) (g_ntxn g))).
-  { apply (LInv_base w st); try assumption; [|rewrite A2; apply db_wf_remove, (L_db _ _ _ I)].
+  intros I L Ho.
+  assert (Li : LInv w st' (base_ghost g o ou (view_of st') (g_txn g) (g_owner g) (g_moot g) (g_ntxn g))).
+  { apply (LInv_logged_out w st st' g s); [exact I|exact L|].
+    apply local_logout_some in L as (_ & _ & A3 & _).
     destruct o; try contradiction; cbn; rewrite A3; apply (L_now _ _ _ I). }
+  apply local_logout_some in L as (A1 & A2 & A3 & A4 & A5 & A6 & A7).
+  destruct (frame_remove st st' s A2) as (K & N).
   destruct o; try contradiction; (split; [exact Logic.I|split; [|exact Li]]); cbn; auto.
-  subst s0. split; [exact K|]. split; [exact N|apply pending_view_same; assumption].
+  subst s0. split; [exact K|]. split; [exact N|apply pend_kept_purge; assumption].
 Qed.
 
 Lemma GStep_tick w st g dt :
@@ -812,28 +938,33 @@ Proof.
                            next_rid := next_rid st; next_ref := next_ref st |}).
   destruct (frame_same st st' None eq_refl) as (K & N).
   split; [exact Logic.I|]. split; [split; [exact K|split; [exact N|reflexivity]]|].
-  apply (LInv_base w st); try reflexivity; [exact I| |apply (L_db _ _ _ I)].
+  apply (LInv_same_pend w st); try reflexivity; [exact I| |apply (L_db _ _ _ I)|auto].
   cbn. rewrite (L_now _ _ _ I). reflexivity.
 Qed.
 
-Lemma LInv_step_gen w st st' g nw kn n vT ows ntx :
+(* steps that start (n fresh) or advance (n in progress) the logout transaction n *)
+Lemma LInv_step_gen w st st' g nw kn n vT ows mts ntx :
   LInv w st g ->
   nw = now st' -> ntx = next_ref st' -> (next_ref st <= next_ref st')%nat ->
   db_wf (db st') ->
   (forall r p, lookup r (pend st') = Some p -> (r < next_rid st')%nat) ->
+  NoDup (keys (pend st')) ->
   (forall n', n' <> n -> (n' < next_ref st)%nat -> heap st' n' = heap st n') ->
   (forall T, vT = Some T ->
      (n < next_ref st')%nat /\ heap st' n = t_wait T /\ NoDup (t_wait T) /\ no_soap w (t_wait T)) ->
   (forall r n0 a, ows r = Some (n0, a) -> (n0 < ntx)%nat) ->
-  (forall r n0 a T0, ows r = Some (n0, a) -> n0 <> n -> g_txn g n0 = Some T0 ->
+  (forall r n0 a T0, ows r = Some (n0, a) -> n0 <> n -> g_txn g n0 = Some T0 -> lookup (t_subj T0) (db st') <> None ->
      g_owner g r = Some (n0, a) /\ lookup r (pend st') = lookup r (pend st)) ->
   (forall r a T, ows r = Some (n, a) -> vT = Some T ->
      lookup r (pend st') = Some {| p_entity := a; p_ref := n; p_subj := t_subj T; p_expire := t_deadline T |}
      /\ In a (t_wait T)) ->
+  (forall r p, lookup r (pend st') = Some p ->
+     exists T, txn_set (g_txn g) n vT (p_ref p) = Some T /\ t_subj T = p_subj p /\ lookup (p_subj p) (db st') <> None /\
+       (ows r = Some (p_ref p, p_entity p) \/ (ows r = None /\ mts r = Some (p_ref p, p_entity p)))) ->
   LInv w st' {| g_now := nw; g_know := kn; g_txn := close_txn (view_of st') (txn_set (g_txn g) n vT);
-                g_owner := ows; g_ntxn := ntx |}.
+                g_owner := ows; g_moot := mts; g_ntxn := ntx |}.
 Proof.
-  intros I En Ef Le W Hr Hh HT Hlt Hold Hnew. destruct I as [I1 I2 I3 I4 I5 I6 I7]. constructor; cbn.
+  intros I En Ef Le W Hr ND Hh HT Hlt Hold Hnew Hpend. destruct I as [I1 I2 I3 I4 I5 I6 I7 I8 I9]. constructor; cbn.
   - exact En.
   - exact Ef.
   - intros n' T H. apply close_txn_some in H as [H P]. unfold txn_set in H.
@@ -845,10 +976,13 @@ Proof.
   - intros r n0 a T Ho H. apply close_txn_some in H as [H P]. unfold txn_set in H.
     destruct (n0 =? n)%nat eqn:E.
     + apply Nat.eqb_eq in E; subst n0. exact (Hnew r a T Ho H).
-    + apply Nat.eqb_neq in E. destruct (Hold r n0 a T Ho E H) as [A B]. rewrite B. exact (I4 r n0 a T A H).
+    + apply Nat.eqb_neq in E. apply present_view in P. destruct (Hold r n0 a T Ho E H P) as [A B]. rewrite B. exact (I4 r n0 a T A H).
   - exact Hlt.
   - exact Hr.
   - exact W.
+  - exact ND.
+  - intros r p H. destruct (Hpend r p H) as (T & HT' & Hs & Pd & Ho). exists T.
+    split; [apply close_txn_some; split; [exact HT'|rewrite Hs; apply present_view; exact Pd]|]. split; assumption.
 Qed.
 
 Lemma owner_add_cases ow n news r x :
@@ -875,12 +1009,29 @@ Proof.
   assert (existsb f l = true) by (apply existsb_exists; exists x; split; assumption). congruence.
 Qed.
 
-Lemma trigger_start_no_soap w g st s dl ans l :
-  trigger w g (view_of st) (StartLogout s dl ans) = 0%nat -> lookup s (db st) = Some l -> no_soap w (keys l).
+Lemma In_keys_ex {V} k (l : list (nat * V)) : In k (keys l) -> exists v, In (k, v) l.
+Proof. unfold keys. intros H. apply in_map_iff in H as [[k' v] [E H]]. cbn in E. subst k'. exists v. exact H. Qed.
+
+Lemma NoDup_keys_app {V} (a b : list (nat * V)) :
+  NoDup (keys a) -> NoDup (keys b) -> (forall k, In k (keys a) -> ~ In k (keys b)) -> NoDup (keys (a ++ b)).
 Proof.
-  unfold trigger. rewrite issuers_view. intros H Ls. rewrite Ls in H.
+  unfold keys. rewrite map_app. induction a as [|[k v] a IH]; cbn; intros Na Nb D; [exact Nb|].
+  inversion Na as [|? ? Nk Nr]; subst. constructor.
+  - rewrite in_app_iff. intros [H|H]; [exact (Nk H)|]. exact (D k (or_introl eq_refl) H).
+  - apply IH; [exact Nr|exact Nb|]. intros k' H. apply D. right; exact H.
+Qed.
+
+Lemma open_trigger_zero w g vb o : open_trigger w g vb o = 0%nat -> trigger w g vb o <> 1%nat /\ trigger w g vb o <> 4%nat.
+Proof.
+  unfold open_trigger, open_class. intros H. split; intros E; rewrite E in H; cbn in H; discriminate.
+Qed.
+
+Lemma trigger_start_no_soap w g st s dl ans l :
+  open_trigger w g (view_of st) (StartLogout s dl ans) = 0%nat -> lookup s (db st) = Some l -> no_soap w (keys l).
+Proof.
+  intros H Ls. apply open_trigger_zero in H as [H _]. unfold trigger in H. rewrite issuers_view, Ls in H.
   assert (P : present (view_of st) s = true) by (apply present_view; congruence). rewrite P in H. cbn [andb] in H.
-  destruct (existsb (asked_by_soap w) (keys l)) eqn:E; [discriminate|]. exact (existsb_false_all _ _ E).
+  destruct (existsb (asked_by_soap w) (keys l)) eqn:E; [congruence|]. exact (existsb_false_all _ _ E).
 Qed.
 
 Lemma new_pending_same st st' : pend st' = pend st -> new_pending (view_of st) (view_of st') = [].
@@ -888,11 +1039,24 @@ Proof.
   intros E. rewrite (new_pending_app st st' (pend st) []); [reflexivity|rewrite app_nil_r; exact E|auto|intros r p []].
 Qed.
 
+Lemma new_pending_purged st st' s : pend st' = purge s (pend st) -> new_pending (view_of st) (view_of st') = [].
+Proof.
+  intros E. rewrite (new_pending_app st st' (purge s (pend st)) []); [reflexivity|rewrite app_nil_r; exact E| |intros r p []].
+  intros r. apply keys_filter_subset.
+Qed.
+
 Lemma is_nil_false {A} (l : list A) : l <> [] -> is_nil l = false.
 Proof. destruct l; [congruence|reflexivity]. Qed.
 
+Lemma fresh_not_old w st g news s ref dl l :
+  LInv w st g -> fresh_entries st s ref dl l news -> forall r p, In (r, p) news -> ~ In r (keys (pend st)).
+Proof.
+  intros I F r p Hr Hin. apply lookup_In_keys in Hin. destruct (lookup r (pend st)) as [p0|] eqn:Lr; [|congruence].
+  pose proof (L_rid _ _ _ I r p0 Lr). destruct (F r p Hr) as (B1 & _). lia.
+Qed.
+
 Lemma GStep_start w st g s dl ans st' ou :
-  LInv w st g -> trigger w g (view_of st) (StartLogout s dl ans) = 0%nat ->
+  LInv w st g -> open_trigger w g (view_of st) (StartLogout s dl ans) = 0%nat ->
   global_logout w ans s dl st = (st', ou) -> GStep w st g (StartLogout s dl ans) st' ou.
 Proof.
   intros I Tr H. unfold global_logout in H. destruct (lookup s (db st)) as [l|] eqn:Ls.
@@ -901,11 +1065,20 @@ Proof.
       destruct (frame_same st st None eq_refl) as (K & N).
       split; [exact Logic.I|]. split.
       - cbn [cl_ends]. split; [apply keeps_weaken; exact K|]. split; [exact N|]. intros X; congruence.
-      - unfold ghost_step. rewrite P. apply (LInv_base w st); try reflexivity; [exact I|cbn; apply (L_now _ _ _ I)|apply (L_db _ _ _ I)]. }
+      - unfold ghost_step. rewrite P.
+        apply (LInv_same_pend w st); try reflexivity; [exact I|cbn; apply (L_now _ _ _ I)|apply (L_db _ _ _ I)|auto]. }
   assert (P : present (view_of st) s = true) by (apply present_view; congruence).
   pose proof (trigger_start_no_soap _ _ _ _ _ _ _ Tr Ls) as NS.
   destruct (L_db _ _ _ I s l Ls) as [ND NE].
-  pose proof (L_now _ _ _ I) as Enow. pose proof (L_ntxn _ _ _ I) as Entx.
+  pose proof (L_now _ _ _ I) as Enow. pose proof (L_ntxn _ _ _ I) as Entx. pose proof (L_nodup _ _ _ I) as NDp.
+  assert (Old : forall r p, lookup r (pend st) = Some p ->
+                  exists T, g_txn g (p_ref p) = Some T /\ t_subj T = p_subj p /\ lookup (p_subj p) (db st) <> None
+                            /\ p_ref p <> next_ref st
+                            /\ (g_owner g r = Some (p_ref p, p_entity p)
+                                \/ (g_owner g r = None /\ g_moot g r = Some (p_ref p, p_entity p)))).
+  { intros r p Hr. destruct (L_pend _ _ _ I r p Hr) as (T & HT & Hs & Ho). exists T.
+    destruct (L_txn _ _ _ I _ T HT) as (A & _ & C & _). rewrite Hs in C.
+    split; [exact HT|]. split; [exact Hs|]. split; [exact C|]. split; [lia|exact Ho]. }
   unfold GStep, ghost_step. rewrite P. cbn [cl_pending cl_ends]. cbv zeta.
   rewrite issuers_view, Ls, (wait_start_no_soap _ _ _ NS), Enow.
   apply do_logout_cases in H as [[D [(A & _)|(Lg & ->)]]|(D & Lp & _)].
@@ -916,25 +1089,31 @@ Proof.
     destruct (frame_remove st st' s A2) as (K & N).
     assert (Ab : present (view_of st') s = false) by (apply present_view_false; rewrite A2; apply lookup_remove_eq).
     split; [exact Logic.I|]. split; [split; [exact K|split; [exact N|intros _; exact Ab]]|].
-    rewrite (new_pending_same st st' A4). unfold base_ghost.
+    rewrite (new_pending_purged st st' s A4). unfold base_ghost.
     apply (LInv_step_gen w st).
     + exact I.
     + cbn; congruence.
     + cbn; congruence.
     + lia.
     + rewrite A2. apply db_wf_remove, (L_db _ _ _ I).
-    + intros r p Hr. rewrite A4 in Hr. rewrite A6. exact (L_rid _ _ _ I r p Hr).
+    + intros r p Hr. rewrite A4 in Hr. apply (lookup_purge s r p _ NDp) in Hr as [Hr _]. rewrite A6. exact (L_rid _ _ _ I r p Hr).
+    + rewrite A4. apply NoDup_keys_filter; exact NDp.
     + intros n' Hn _. rewrite A5. cbn. rewrite Entx in Hn. apply Nat.eqb_neq in Hn. rewrite Hn. reflexivity.
     + intros T X; discriminate.
     + intros r n0 a Ho. apply owner_add_cases in Ho as [(pv & X & _)|(_ & Ho)]; [discriminate|].
       pose proof (L_own_lt _ _ _ I r n0 a Ho). lia.
-    + intros r n0 a T0 Ho Hn HT. apply owner_add_cases in Ho as [(pv & X & _)|(_ & Ho)]; [discriminate|].
-      split; [exact Ho|rewrite A4; reflexivity].
+    + intros r n0 a T0 Ho Hn HT Pd. apply owner_add_cases in Ho as [(pv & X & _)|(_ & Ho)]; [discriminate|].
+      split; [exact Ho|]. destruct (L_own _ _ _ I r n0 a T0 Ho HT) as [Lr _]. rewrite Lr, A4.
+      apply (lookup_purge s r _ _ NDp). split; [exact Lr|]. cbn. intros X. rewrite X, A2, lookup_remove_eq in Pd. apply Pd; reflexivity.
     + intros r a T _ X; discriminate.
+    + intros r p Hr. rewrite A4 in Hr. apply (lookup_purge s r p _ NDp) in Hr as [Hr Ns].
+      destruct (Old r p Hr) as (T & HT & Hs & C & Hn & Ho). exists T. unfold txn_set. rewrite Entx.
+      apply Nat.eqb_neq in Hn. rewrite Hn. split; [exact HT|]. split; [exact Hs|].
+      split; [rewrite A2, lookup_remove_neq by exact Ns; exact C|]. unfold owner_add. cbn. exact Ho.
   - (* requests go out; the session stays *)
     cbn [now alloc] in D. rewrite D. cbn [orb].
     assert (Hnil : @is_nil issuer (keys l) = false) by (apply is_nil_false; exact NE). rewrite Hnil.
-    destruct Lp as (A1 & A2 & A3 & A4 & news & A5 & A6 & A7 & A8). cbn in A1, A2, A4, A5, A6.
+    destruct Lp as (A1 & A2 & A3 & A4 & news & A5 & A6 & A7 & A8 & A9). cbn in A1, A2, A4, A5, A6.
     assert (Hn1 : heap st' (next_ref st) = keys l) by (rewrite A3; cbn; rewrite Nat.eqb_refl; reflexivity).
     assert (A7' : fresh_entries st s (next_ref st) dl (keys l) news).
     { intros r p Hr. destruct (A7 r p Hr) as (B1 & B2 & B3 & B4 & B5). cbn in B1, B5. rewrite Nat.eqb_refl in B5.
@@ -943,9 +1122,7 @@ Proof.
     assert (Pa : present (view_of st') s = true) by (apply present_view; rewrite A1; congruence).
     split; [exact Logic.I|]. split.
     { split; [apply keeps_weaken; exact K|]. split; [exact N|]. intros _. split; [intros X; exfalso; exact (NE X)|intros X; rewrite Pa in X; discriminate]. }
-    assert (Fresh : forall r p, In (r, p) news -> ~ In r (keys (pend st))).
-    { intros r p Hr Hin. apply lookup_In_keys in Hin. destruct (lookup r (pend st)) as [p0|] eqn:Lr; [|congruence].
-      pose proof (L_rid _ _ _ I r p0 Lr). destruct (A7' r p Hr) as (B1 & _). lia. }
+    pose proof (fresh_not_old _ _ _ _ _ _ _ _ I A7') as Fresh.
     rewrite (new_pending_app st st' (pend st) news A5 (fun r H => H) Fresh). unfold base_ghost.
     apply (LInv_step_gen w st).
     + exact I.
@@ -956,11 +1133,13 @@ Proof.
     + intros r p Hr. rewrite A5, lookup_app in Hr. destruct (lookup r (pend st)) as [p0|] eqn:Lr.
       * pose proof (L_rid _ _ _ I r p0 Lr). lia.
       * apply lookup_In in Hr. exact (A8 r p Hr).
+    + rewrite A5. apply NoDup_keys_app; [exact NDp|exact A9|].
+      intros k Hk Hk'. apply In_keys_ex in Hk' as [p Hp]. exact (Fresh k p Hp Hk).
     + intros n' Hn _. rewrite A3. cbn. rewrite Entx in Hn. apply Nat.eqb_neq in Hn. rewrite Hn. reflexivity.
     + intros T X. injection X as <-. cbn. rewrite Entx. split; [lia|]. split; [exact Hn1|]. split; assumption.
     + intros r n0 a Ho. apply owner_add_cases in Ho as [(pv & _ & X)|(_ & Ho)]; [injection X as -> _; lia|].
       pose proof (L_own_lt _ _ _ I r n0 a Ho). lia.
-    + intros r n0 a T0 Ho Hn HT. apply owner_add_cases in Ho as [(pv & _ & X)|(_ & Ho)]; [injection X as -> _; congruence|].
+    + intros r n0 a T0 Ho Hn HT _. apply owner_add_cases in Ho as [(pv & _ & X)|(_ & Ho)]; [injection X as -> _; congruence|].
       split; [exact Ho|]. destruct (L_own _ _ _ I r n0 a T0 Ho HT) as [Lr _]. rewrite A5. rewrite (lookup_app_old _ _ _ _ Lr), Lr. reflexivity.
     + intros r a T Ho X. injection X as <-. cbn [t_subj t_deadline t_wait].
       apply owner_add_cases in Ho as [(pv & Hl & X)|(_ & Ho)].
@@ -971,6 +1150,18 @@ Proof.
         rewrite A5, (lookup_app_new _ _ _ Lr), Ln. split; [|exact B5].
         rewrite (pentry_eta p) at 1. rewrite B2, B3, B4, Entx. reflexivity.
       * pose proof (L_own_lt _ _ _ I r _ a Ho). lia.
+    + intros r p Hr. rewrite A5, lookup_app in Hr. destruct (lookup r (pend st)) as [p0|] eqn:Lr.
+      * injection Hr as <-. destruct (Old r p0 Lr) as (T & HT & Hs & C & Hn & Ho). exists T. unfold txn_set. rewrite Entx.
+        apply Nat.eqb_neq in Hn. rewrite Hn. split; [exact HT|]. split; [exact Hs|]. split; [rewrite A1; exact C|].
+        unfold owner_add. rewrite (lookup_map_snd (pv_of st')).
+        assert (Ln : lookup r news = None).
+        { apply lookup_None_keys. intros Hk. apply In_keys_ex in Hk as [q Hq]. apply (Fresh r q Hq).
+          apply lookup_In_keys. congruence. }
+        rewrite Ln. cbn. exact Ho.
+      * apply lookup_In in Hr as Hin. destruct (A7' r p Hin) as (B1 & B2 & B3 & B4 & B5).
+        exists {| t_subj := s; t_wait := keys l; t_deadline := dl; t_soap := existsb (asked_by_soap w) (keys l) |}.
+        unfold txn_set. rewrite B2, Entx, Nat.eqb_refl. split; [reflexivity|]. split; [cbn; congruence|].
+        split; [rewrite B3, A1; congruence|]. left. unfold owner_add. rewrite (lookup_map_snd (pv_of st')), Hr. reflexivity.
 Qed.
 
 Lemma answering_some g r i success n T :
@@ -989,20 +1180,36 @@ Proof.
   split; [reflexivity|]. intros -> ->. rewrite !Nat.eqb_refl in E. discriminate.
 Qed.
 
+(* what becomes of the owner / moot marks of a request that stays pending while (n, i) is answered *)
+Lemma marks_after_answer ow mt n i r x :
+  (ow r = Some x \/ (ow r = None /\ mt r = Some x)) ->
+  (owner_drop ow n i r = Some x \/ (owner_drop ow n i r = None /\ moot_add mt ow n i r = Some x)).
+Proof.
+  unfold owner_drop, moot_add. intros [H|[H M]]; rewrite H.
+  - destruct x as [n' a']. destruct ((n' =? n)%nat && (a' =? i)%nat); [right; split; reflexivity|left; reflexivity].
+  - right. split; [reflexivity|exact M].
+Qed.
+
+(* a LogoutResponse that does not answer a pending request changes nothing (after de5f1fed / 73294247) *)
 Lemma not_answering_same w st g r i success ans st' ou :
-  trigger w g (view_of st) (LogoutResponse r i success ans) = 0%nat ->
+  LInv w st g ->
+  open_trigger w g (view_of st) (LogoutResponse r i success ans) = 0%nat ->
   answering g r i success = None ->
   handle_logout_response w ans r i success st = (st', ou) -> st' = st.
 Proof.
-  unfold handle_logout_response, trigger, answering. destruct success; cbn [negb].
-  2:{ intros _ _ H; injection H as <- _; reflexivity. }
-  intros Tr An H. destruct (lookup r (pend st)) as [p|] eqn:Lr.
+  intros I Tr An H. unfold handle_logout_response in H. destruct success; cbn [negb] in H.
   2:{ injection H as <- _; reflexivity. }
-  exfalso.
-  assert (M : mem r (pending_ids (view_of st)) = true).
-  { rewrite pending_ids_view. apply mem_In, lookup_In_keys. congruence. }
-  rewrite M in Tr. destruct (g_owner g r) as [[n a]|]; [|discriminate].
-  destruct (g_txn g n) as [T|]; [|discriminate]. destruct (a =? i)%nat; discriminate.
+  destruct (lookup r (pend st)) as [p|] eqn:Lr.
+  2:{ injection H as <- _; reflexivity. }
+  destruct (p_entity p =? i)%nat eqn:Ei; cbn [negb] in H.
+  2:{ injection H as <- _; reflexivity. }
+  exfalso. apply Nat.eqb_eq in Ei.
+  destruct (L_pend _ _ _ I r p Lr) as (T & HT & _ & [Ho|[Ho Hm]]).
+  - unfold answering in An. rewrite Ho, Ei, Nat.eqb_refl, HT in An. discriminate.
+  - apply open_trigger_zero in Tr as [_ Tr]. apply Tr. unfold trigger. rewrite Ho.
+    assert (M : mem r (pending_ids (view_of st)) = true).
+    { rewrite pending_ids_view. apply mem_In, lookup_In_keys. congruence. }
+    rewrite M, Hm, HT, Ei, Nat.eqb_refl. reflexivity.
 Qed.
 
 Lemma lookup_remove_some {V} k k' (l : list (nat * V)) v : lookup k' (remove k l) = Some v -> k' <> k /\ lookup k' l = Some v.
@@ -1015,52 +1222,72 @@ Lemma owner_unique g r n i r' n0 a :
   g_owner g r = Some (n, i) -> g_owner g r' = Some (n0, a) -> (n0 <> n \/ a <> i) -> r' <> r.
 Proof. intros A B C ->. rewrite A in B. injection B as <- <-. destruct C as [C|C]; apply C; reflexivity. Qed.
 
+(* the answer that ends the session (last involved IdP, or deadline passed): the subject's other
+   requests are dropped with it *)
 Lemma LInv_response_end w st st' g r i n T nw kn :
   LInv w st g -> g_owner g r = Some (n, i) -> g_txn g n = Some T ->
-  db st' = remove (t_subj T) (db st) -> nw = now st' -> pend st' = remove r (pend st) ->
+  db st' = remove (t_subj T) (db st) -> nw = now st' -> pend st' = purge (t_subj T) (remove r (pend st)) ->
   (forall n', n' <> n -> heap st' n' = heap st n') -> next_rid st' = next_rid st -> next_ref st' = next_ref st ->
   LInv w st' {| g_now := nw; g_know := kn; g_txn := close_txn (view_of st') (txn_set (g_txn g) n None);
                 g_owner := owner_add (owner_drop (g_owner g) n i) n (new_pending (view_of st) (view_of st'));
+                g_moot := moot_add (g_moot g) (g_owner g) n i;
                 g_ntxn := g_ntxn g |}.
 Proof.
   intros I Ho Ht Ed En Ep Eh Er Ef.
+  pose proof (L_nodup _ _ _ I) as NDp.
+  assert (NDr : NoDup (keys (remove r (pend st)))) by (apply NoDup_keys_remove; exact NDp).
   assert (NP : new_pending (view_of st) (view_of st') = []).
-  { rewrite (new_pending_app st st' (remove r (pend st)) []); [reflexivity|rewrite app_nil_r; exact Ep| |intros r' p []].
-    intros r'. apply keys_remove_subset. }
+  { rewrite (new_pending_app st st' (purge (t_subj T) (remove r (pend st))) []);
+      [reflexivity|rewrite app_nil_r; exact Ep| |intros r' p []].
+    intros r' Hk. apply keys_filter_subset in Hk. exact (keys_remove_subset0 r r' _ Hk). }
+  assert (Lk : forall r' p, lookup r' (pend st') = Some p -> r' <> r /\ lookup r' (pend st) = Some p /\ p_subj p <> t_subj T).
+  { intros r' p Hr. rewrite Ep in Hr. apply (lookup_purge _ r' p _ NDr) in Hr as [Hr Ns].
+    apply lookup_remove_some in Hr as [Ne Hr]. auto. }
   rewrite NP. apply (LInv_step_gen w st).
   - exact I.
   - exact En.
   - rewrite Ef. apply (L_ntxn _ _ _ I).
   - lia.
   - rewrite Ed. apply db_wf_remove, (L_db _ _ _ I).
-  - intros r' p Hr. rewrite Ep in Hr. apply lookup_remove_some in Hr as [_ Hr]. rewrite Er. exact (L_rid _ _ _ I r' p Hr).
+  - intros r' p Hr. destruct (Lk r' p Hr) as (_ & Hr' & _). rewrite Er. exact (L_rid _ _ _ I r' p Hr').
+  - rewrite Ep. apply NoDup_keys_filter; exact NDr.
   - intros n' Hn _. apply Eh; exact Hn.
   - intros T0 X; discriminate.
   - intros r' n0 a Hx. apply owner_add_cases in Hx as [(pv & X & _)|(_ & Hx)]; [discriminate|].
     apply owner_drop_some in Hx as [Hx _]. exact (L_own_lt _ _ _ I r' n0 a Hx).
-  - intros r' n0 a T0 Hx Hn HT. apply owner_add_cases in Hx as [(pv & X & _)|(_ & Hx)]; [discriminate|].
-    apply owner_drop_some in Hx as [Hx _]. split; [exact Hx|]. rewrite Ep. apply lookup_remove_neq.
-    eapply owner_unique; [exact Ho|exact Hx|left; exact Hn].
+  - intros r' n0 a T0 Hx Hn HT Pd. apply owner_add_cases in Hx as [(pv & X & _)|(_ & Hx)]; [discriminate|].
+    apply owner_drop_some in Hx as [Hx _]. split; [exact Hx|].
+    destruct (L_own _ _ _ I r' n0 a T0 Hx HT) as [L0 _].
+    assert (Ne : r' <> r) by (eapply owner_unique; [exact Ho|exact Hx|left; exact Hn]).
+    rewrite L0, Ep. apply (lookup_purge _ r' _ _ NDr). split; [rewrite lookup_remove_neq by exact Ne; exact L0|].
+    cbn. intros X. rewrite X, Ed, lookup_remove_eq in Pd. apply Pd; reflexivity.
   - intros r' a T0 _ X; discriminate.
+  - intros r' p Hr. destruct (Lk r' p Hr) as (Ne & Hr' & Ns).
+    destruct (L_pend _ _ _ I r' p Hr') as (T' & HT' & Hs & Hm).
+    destruct (L_txn _ _ _ I _ T' HT') as (_ & _ & C & _). rewrite Hs in C.
+    assert (Hn : p_ref p <> n). { intros X. rewrite X, Ht in HT'. injection HT' as <-. apply Ns. symmetry; exact Hs. }
+    exists T'. unfold txn_set. apply Nat.eqb_neq in Hn. rewrite Hn.
+    split; [exact HT'|]. split; [exact Hs|]. split; [rewrite Ed, lookup_remove_neq by exact Ns; exact C|].
+    unfold owner_add. cbn. apply marks_after_answer. exact Hm.
 Qed.
 
 Lemma GStep_response w st g r i success ans st' ou :
-  LInv w st g -> trigger w g (view_of st) (LogoutResponse r i success ans) = 0%nat ->
+  LInv w st g -> open_trigger w g (view_of st) (LogoutResponse r i success ans) = 0%nat ->
   handle_logout_response w ans r i success st = (st', ou) ->
   GStep w st g (LogoutResponse r i success ans) st' ou.
 Proof.
   intros I Tr H. destruct (answering g r i success) as [[n T]|] eqn:An.
   2:{ (* does not answer a pending request: nothing changes *)
-      pose proof (not_answering_same _ _ _ _ _ _ _ _ _ Tr An H) as ->.
+      pose proof (not_answering_same _ _ _ _ _ _ _ _ _ I Tr An H) as ->.
       unfold GStep, ghost_step. cbn [cl_pending cl_ends]. rewrite An.
       split; [intros _; split; reflexivity|]. split; [exact Logic.I|].
-      apply (LInv_base w st); try reflexivity; [exact I|cbn; apply (L_now _ _ _ I)|apply (L_db _ _ _ I)]. }
+      apply (LInv_same_pend w st); try reflexivity; [exact I|cbn; apply (L_now _ _ _ I)|apply (L_db _ _ _ I)|auto]. }
   destruct (answering_some _ _ _ _ _ _ An) as (-> & Ho & Ht).
   destruct (L_own _ _ _ I r n i T Ho Ht) as [Lr Hin].
   destruct (L_txn _ _ _ I n T Ht) as (Hn & Hh & Ps & ND & NS).
-  pose proof (L_now _ _ _ I) as Enow. pose proof (L_ntxn _ _ _ I) as Entx.
+  pose proof (L_now _ _ _ I) as Enow. pose proof (L_ntxn _ _ _ I) as Entx. pose proof (L_nodup _ _ _ I) as NDp.
   unfold handle_logout_response in H. cbn [negb] in H. rewrite Lr in H.
-  cbn [p_ref p_subj p_expire set_pend heap] in H. rewrite Hh in H.
+  cbn [p_entity p_ref p_subj p_expire] in H. rewrite Nat.eqb_refl in H. cbn [negb set_pend heap] in H. rewrite Hh in H.
   unfold GStep, ghost_step. cbn [cl_pending cl_ends]. rewrite An. cbv zeta.
   rewrite (wait_answer_no_soap _ ans i _ NS), (wait_minus_remove_first i _ ND), Enow.
   split; [intros X; discriminate|].
@@ -1099,7 +1326,7 @@ Proof.
     + (* the others are asked again; the session stays *)
       cbn [now st2 set_heap set_pend] in D. rewrite D. cbn [orb].
       assert (Hnil : @is_nil issuer (remove_first i (t_wait T)) = false) by (apply is_nil_false; exact NE). rewrite Hnil.
-      destruct Lp as (A1 & A2 & A3 & A4 & news & A5 & A6 & A7 & A8). cbn in A1, A2, A4, A5, A6.
+      destruct Lp as (A1 & A2 & A3 & A4 & news & A5 & A6 & A7 & A8 & A9). cbn in A1, A2, A4, A5, A6.
       assert (Hn1 : heap st' n = remove_first i (t_wait T)) by (rewrite A3; cbn; rewrite Nat.eqb_refl; reflexivity).
       assert (A7' : fresh_entries st (t_subj T) n (t_deadline T) (remove_first i (t_wait T)) news).
       { intros r' p Hr. destruct (A7 r' p Hr) as (B1 & B2 & B3 & B4 & B5). cbn in B1, B5. rewrite Nat.eqb_refl in B5.
@@ -1110,10 +1337,9 @@ Proof.
       { split; [apply keeps_weaken; exact K|]. split; [exact N|].
         split; [intros X; exfalso; exact (NE X)|]. split; [intros X; exfalso; exact (NE X)|].
         intros X; rewrite Pa in X; discriminate. }
-      assert (Fresh : forall r' p, In (r', p) news -> ~ In r' (keys (pend st))).
-      { intros r' p Hr Hi. apply lookup_In_keys in Hi. destruct (lookup r' (pend st)) as [p0|] eqn:L0; [|congruence].
-        pose proof (L_rid _ _ _ I r' p0 L0). destruct (A7' r' p Hr) as (B1 & _). lia. }
+      pose proof (fresh_not_old _ _ _ _ _ _ _ _ I A7') as Fresh.
       rewrite (new_pending_app st st' (remove r (pend st)) news A5 (fun r' => keys_remove_subset r r' (pend st)) Fresh).
+      set (T' := {| t_subj := t_subj T; t_wait := remove_first i (t_wait T); t_deadline := t_deadline T; t_soap := t_soap T |}).
       unfold base_ghost. apply (LInv_step_gen w st).
       * exact I.
       * cbn. congruence.
@@ -1123,13 +1349,15 @@ Proof.
       * intros r' p Hr. rewrite A5, lookup_app in Hr. destruct (lookup r' (remove r (pend st))) as [p0|] eqn:L0.
         -- apply lookup_remove_some in L0 as [_ L0]. pose proof (L_rid _ _ _ I r' p0 L0). lia.
         -- apply lookup_In in Hr. exact (A8 r' p Hr).
+      * rewrite A5. apply NoDup_keys_app; [apply NoDup_keys_remove; exact NDp|exact A9|].
+        intros k Hk Hk'. apply In_keys_ex in Hk' as [p Hp]. apply (Fresh k p Hp). exact (keys_remove_subset r k _ Hk).
       * intros n' Hn' _. rewrite A3. cbn. apply Nat.eqb_neq in Hn'. rewrite Hn'. reflexivity.
       * intros T0 X. injection X as <-. cbn. split; [lia|]. split; [exact Hn1|].
         split; [apply NoDup_remove_first; exact ND|]. intros j Hj. apply NS. eapply remove_first_subset; exact Hj.
       * intros r' n0 a Hx. apply owner_add_cases in Hx as [(pv & _ & X)|(_ & Hx)].
         -- injection X as -> _. exact (L_own_lt _ _ _ I r n i Ho).
         -- apply owner_drop_some in Hx as [Hx _]. exact (L_own_lt _ _ _ I r' n0 a Hx).
-      * intros r' n0 a T0 Hx Hn0 HT. apply owner_add_cases in Hx as [(pv & _ & X)|(_ & Hx)]; [injection X as -> _; congruence|].
+      * intros r' n0 a T0 Hx Hn0 HT _. apply owner_add_cases in Hx as [(pv & _ & X)|(_ & Hx)]; [injection X as -> _; congruence|].
         apply owner_drop_some in Hx as [Hx _]. split; [exact Hx|].
         destruct (L_own _ _ _ I r' n0 a T0 Hx HT) as [L0 _].
         assert (Ne : r' <> r) by (eapply owner_unique; [exact Ho|exact Hx|left; exact Hn0]).
@@ -1147,10 +1375,27 @@ Proof.
            destruct (L_own _ _ _ I r' n a T Hx Ht) as [L0 Hin0].
            assert (Ne : r' <> r) by (eapply owner_unique; [exact Ho|exact Hx|right; exact Ha]).
            rewrite A5. split; [apply lookup_app_old; rewrite lookup_remove_neq by exact Ne; exact L0|apply In_remove_first; assumption].
+      * intros r' p Hr. rewrite A5, lookup_app in Hr. destruct (lookup r' (remove r (pend st))) as [p0|] eqn:L0.
+        -- injection Hr as <-. apply lookup_remove_some in L0 as [Ne L0].
+           destruct (L_pend _ _ _ I r' p0 L0) as (T0 & HT0 & Hs & Hm).
+           destruct (L_txn _ _ _ I _ T0 HT0) as (_ & _ & C & _). rewrite Hs in C.
+           assert (Ln : lookup r' news = None).
+           { apply lookup_None_keys. intros Hk. apply In_keys_ex in Hk as [q Hq]. apply (Fresh r' q Hq).
+             apply lookup_In_keys. congruence. }
+           assert (Marks : owner_add (owner_drop (g_owner g) n i) n (map (fun rp => (fst rp, pv_of st' (snd rp))) news) r'
+                           = owner_drop (g_owner g) n i r').
+           { unfold owner_add. rewrite (lookup_map_snd (pv_of st')), Ln. reflexivity. }
+           rewrite Marks. unfold txn_set. destruct (p_ref p0 =? n)%nat eqn:En.
+           ++ apply Nat.eqb_eq in En. rewrite En, Ht in HT0. injection HT0 as <-. exists T'.
+              split; [reflexivity|]. split; [exact Hs|]. split; [rewrite A1; exact C|]. apply marks_after_answer. exact Hm.
+           ++ exists T0. split; [exact HT0|]. split; [exact Hs|]. split; [rewrite A1; exact C|]. apply marks_after_answer. exact Hm.
+        -- apply lookup_In in Hr as Hi. destruct (A7' r' p Hi) as (B1 & B2 & B3 & B4 & B5).
+           exists T'. unfold txn_set. rewrite B2, Nat.eqb_refl. split; [reflexivity|]. split; [cbn; congruence|].
+           split; [rewrite B3, A1; exact Ps|]. left. unfold owner_add. rewrite (lookup_map_snd (pv_of st')), Hr. reflexivity.
 Qed.
 
 Lemma guarded_step w st g o st' ou :
-  LInv w st g -> trigger w g (view_of st) o = 0%nat -> step w st o = (st', ou) -> GStep w st g o st' ou.
+  LInv w st g -> open_trigger w g (view_of st) o = 0%nat -> step w st o = (st', ou) -> GStep w st g o st' ou.
 Proof.
   intros I Tr H. destruct o; cbn [step] in H.
   - injection H as <- <-. apply GStep_store; [exact I|reflexivity].
@@ -1179,9 +1424,10 @@ Lemma guarded_from : forall h w st g,
   LInv w st g -> first_trigger_from w g (view_of st) (run_from w st h) = 0%nat ->
   spec_from cl_pending w g (view_of st) (run_from w st h) /\ spec_from cl_ends w g (view_of st) (run_from w st h).
 Proof.
+  unfold first_trigger_from.
   induction h as [|o r IH]; intros w st g I Tr; cbn; [split; exact Logic.I|].
   cbn in Tr. destruct (step w st o) as [st' ou] eqn:S. cbn in Tr |- *.
-  destruct (trigger w g (view_of st) o) eqn:T0; [|discriminate].
+  destruct (open_trigger w g (view_of st) o) eqn:T0; [|discriminate].
   destruct (guarded_step _ _ _ _ _ _ I T0 S) as (A & B & C).
   destruct (IH w st' _ C Tr) as [D E]. split; split; assumption.
 Qed.
@@ -1337,10 +1583,32 @@ Proof. destruct ou; cbn; try (split; [discriminate|congruence]). destruct s; spl
 Lemma is_nil_iff {A} (l : list A) : is_nil l = true <-> l = [].
 Proof. destruct l; cbn; split; congruence. Qed.
 
+Lemma pend_in_b_iff rp l : pend_in_b rp l = true <-> In rp l.
+Proof.
+  unfold pend_in_b. rewrite existsb_exists. split.
+  - intros [x [Hx H]]. apply andb_true_iff in H as [A B]. apply Nat.eqb_eq in A. apply pview_eqb_eq in B.
+    destruct x, rp. cbn in *. subst. exact Hx.
+  - intros H. exists rp. split; [exact H|]. rewrite Nat.eqb_refl. cbn. apply pview_eqb_eq. reflexivity.
+Qed.
+
+Lemma pend_kept_b_iff vb va e : pend_kept_b vb va e = true <-> pend_kept vb va e.
+Proof.
+  unfold pend_kept_b, pend_kept. rewrite andb_true_iff, !forallb_forall. split.
+  - intros [A B]. split.
+    + intros rp H. apply pend_in_b_iff, A, H.
+    + intros rp H N. specialize (B rp H). apply orb_true_iff in B as [B|B]; [|apply pend_in_b_iff; exact B].
+      apply negb_true_iff in B. apply osubj_neqb_iff in N. congruence.
+  - intros [A B]. split.
+    + intros rp H. apply pend_in_b_iff, A, H.
+    + intros rp H. destruct (osubj_neqb (pv_subj (snd rp)) e) eqn:E; [|reflexivity]. cbn.
+      apply pend_in_b_iff, B; [exact H|apply osubj_neqb_iff; exact E].
+Qed.
+
 Lemma cl_request_b_iff w g vb o ou va : cl_request_b vb o ou va = true <-> cl_request w g vb o ou va.
 Proof.
   unfold cl_request_b, cl_request. destruct o; try (split; [intros _; exact I|reflexivity]).
-  rewrite !andb_true_iff, keeps_b_iff, no_new_b_iff, pending_eqb_eq. split.
+  rewrite !andb_true_iff, keeps_b_iff, no_new_b_iff, pend_kept_b_iff.
+  set (Q := pend_kept vb va _). clearbody Q. split.
   - intros [[[[A B] C] D] E]. repeat split; try assumption.
     + intros ->. rewrite Nat.eqb_refl in C. cbn in C. apply negb_true_iff; exact C.
     + destruct (is_success ou) eqn:S; [|apply is_success_iff in H; congruence]. cbn in D.
@@ -1396,7 +1664,7 @@ Proof.
            destruct (is_sent ou) eqn:S; [|left; right; reflexivity]. right. apply D; [apply is_nil_iff; exact N|reflexivity].
         -- destruct (present va (t_subj T)) eqn:Q; [left; reflexivity|right; apply E; reflexivity].
   - split; [intros _; exact I|reflexivity].
-  - rewrite !andb_true_iff, keeps_b_iff, no_new_b_iff, pending_eqb_eq; tauto.
+  - rewrite !andb_true_iff, keeps_b_iff, no_new_b_iff, pend_kept_b_iff; tauto.
 Qed.
 
 Lemma step_ok_b_iff w g vb o ou va : step_ok_b w g vb o ou va = true <-> step_ok w g vb o ou va.
@@ -1448,13 +1716,13 @@ Proof.
 Qed.
 
 (* ================================================================ up to the first trigger *)
-(* The sharper statement: on EVERY history, every step before the first step that falls into a known
-   finding class satisfies all clauses (Corr.cls excuses exactly the steps from that trigger on). *)
+(* The sharper statement: on EVERY history, every step before the first step that falls into an OPEN
+   finding class (1, 4) satisfies all clauses (Corr.cls excuses exactly the steps from that trigger on). *)
 Fixpoint spec_until_from (cl : clause) (w : world) (g : ghost) (vb : view) (tr : trace) : Prop :=
   match tr with
   | [] => True
   | (o, ou, va) :: r =>
-      trigger w g vb o = 0%nat -> cl w g vb o ou va /\ spec_until_from cl w (ghost_step w g vb o ou va) va r
+      open_trigger w g vb o = 0%nat -> cl w g vb o ou va /\ spec_until_from cl w (ghost_step w g vb o ou va) va r
   end.
 Definition spec_until (w : world) (t0 : Z) (tr : trace) : Prop := spec_until_from step_ok w (ghost0 t0) empty_view tr.
 
@@ -1484,8 +1752,9 @@ Proof. unfold spec_until, run. rewrite <- (view_init t0). apply until_from; [app
 Lemma until_guard w : forall tr g vb,
   spec_until_from step_ok w g vb tr -> first_trigger_from w g vb tr = 0%nat -> spec_from step_ok w g vb tr.
 Proof.
+  unfold first_trigger_from.
   induction tr as [|[[o ou] va] r IH]; intros g vb H T; cbn in *; [exact I|].
-  destruct (trigger w g vb o) eqn:E; [|discriminate]. destruct (H eq_refl) as [A B]. split; [exact A|apply IH; assumption].
+  destruct (open_trigger w g vb o) eqn:E; [|discriminate]. destruct (H eq_refl) as [A B]. split; [exact A|apply IH; assumption].
 Qed.
 
 (* ================================================================ the known finding classes are real (faithful model) *)
@@ -1493,35 +1762,82 @@ Local Close Scope Z_scope.
 Definition w_soap : world := {| w_pref := [SOAP; REDIRECT; POST]; w_slo := [[SOAP]] |}.
 Definition w_front : world := {| w_pref := [SOAP; REDIRECT; POST]; w_slo := [[REDIRECT]; [POST]] |}.
 
-(* class 1: the only IdP is asked over SOAP and answers Success; the session stays *)
+Definition w_three : world := {| w_pref := [SOAP; REDIRECT; POST]; w_slo := [[REDIRECT]; [REDIRECT]; [REDIRECT]] |}.
+
+(* class 1 (open): the only IdP is asked over SOAP and answers Success; the session stays *)
 Definition h_soap : list op := [Login 0 0 2000 1; StartLogout 0 None [SA_ok]; GetIdentity 0 [] true].
-(* class 2: IdP 1 answers the request that was sent to IdP 0 *)
+(* class 2 (fixed by de5f1fed): IdP 1 answers the request that was sent to IdP 0 *)
 Definition h_wrong_party : list op :=
   [Login 0 0 2000 1; Login 0 1 2000 2; StartLogout 0 None []; LogoutResponse 0 1 true []].
-(* class 3: the answer to a request of an abandoned logout ends the subject's NEW session *)
+(* class 3 (fixed by 73294247): the answer to a request of an abandoned logout ends the subject's NEW session *)
 Definition h_stale : list op :=
   [Login 0 0 2000 1; StartLogout 0 None []; LocalLogout 0; Login 0 0 2000 2; LogoutResponse 0 0 true [];
    GetIdentity 0 [] true].
+(* class 4 (open, residue of 3): three IdPs; IdP 0 answers (1 and 2 are asked again: requests 3, 4), IdP 1
+   answers request 1 (2 is asked again), then IdP 1 also answers its second request 3, which is moot *)
+Definition h_moot : list op :=
+  [Login 0 0 2000 1; Login 0 1 2000 2; Login 0 2 2000 3; StartLogout 0 None [];
+   LogoutResponse 0 0 true []; LogoutResponse 1 1 true []; LogoutResponse 3 1 true []].
 
-Lemma refute w t0 h : spec_b w t0 (run w t0 h) = false -> ~ spec w t0 (run w t0 h).
+Lemma refute w t0 tr : spec_b w t0 tr = false -> ~ spec w t0 tr.
 Proof. intros E H. apply spec_b_iff in H. congruence. Qed.
 
 Lemma soap_refuted : exists w t0 h, first_trigger w t0 (run w t0 h) = 1%nat /\ ~ spec w t0 (run w t0 h).
 Proof. exists w_soap, 1000%Z, h_soap. split; [vm_compute; reflexivity|apply refute; vm_compute; reflexivity]. Qed.
 
-Lemma wrong_party_refuted : exists w t0 h, first_trigger w t0 (run w t0 h) = 2%nat /\ ~ spec w t0 (run w t0 h).
+Lemma moot_refuted : exists w t0 h, first_trigger w t0 (run w t0 h) = 4%nat /\ ~ spec w t0 (run w t0 h).
+Proof. exists w_three, 1000%Z, h_moot. split; [vm_compute; reflexivity|apply refute; vm_compute; reflexivity]. Qed.
+
+(* the behaviour before each fix violated the property (run_v0 party purge: false = that fix reverted) *)
+Lemma wrong_party_v0_refuted :
+  exists w t0 h, first_any_trigger w t0 (run_v0 false true w t0 h) = 2%nat /\ ~ spec w t0 (run_v0 false true w t0 h).
 Proof. exists w_front, 1000%Z, h_wrong_party. split; [vm_compute; reflexivity|apply refute; vm_compute; reflexivity]. Qed.
 
-Lemma stale_refuted : exists w t0 h, first_trigger w t0 (run w t0 h) = 3%nat /\ ~ spec w t0 (run w t0 h).
+Lemma stale_v0_refuted :
+  exists w t0 h, first_any_trigger w t0 (run_v0 true false w t0 h) = 3%nat /\ ~ spec w t0 (run_v0 true false w t0 h).
 Proof. exists w_front, 1000%Z, h_stale. split; [vm_compute; reflexivity|apply refute; vm_compute; reflexivity]. Qed.
 
-(* what goes wrong, in the model's own outputs *)
+Lemma original_v0_refuted :
+  exists w t0 h, first_any_trigger w t0 (run_v0 false false w t0 h) = 3%nat /\ ~ spec w t0 (run_v0 false false w t0 h).
+Proof. exists w_front, 1000%Z, h_stale. split; [vm_compute; reflexivity|apply refute; vm_compute; reflexivity]. Qed.
+
+(* with both fixes the _v0 definitions are the model *)
+Lemma step_v0_fixed w st o : step_v0 true true w st o = step w st o.
+Proof. destruct o; reflexivity. Qed.
+Lemma run_v0_fixed w t0 h : run_v0 true true w t0 h = run w t0 h.
+Proof.
+  unfold run_v0, run. generalize (init t0). induction h as [|o r IH]; intros st; cbn [run_from_v0 run_from]; [reflexivity|].
+  rewrite step_v0_fixed. destruct (step w st o) as [st' ou]. rewrite IH. reflexivity.
+Qed.
+
+(* ... and the repaired code satisfies the whole property on the two histories *)
+Example wrong_party_now : spec w_front 1000 (run w_front 1000 h_wrong_party).
+Proof. apply guarded_spec. vm_compute. reflexivity. Qed.
+Example stale_now : spec w_front 1000 (run w_front 1000 h_stale).
+Proof. apply guarded_spec. vm_compute. reflexivity. Qed.
+
+(* what goes / went wrong, in the model's own outputs *)
 Example soap_session_survives :
   map (fun x => snd (fst x)) (run w_soap 1000 h_soap) = [OUnit; OSent [SentSoap 0]; OIdentity [1] []].
 Proof. vm_compute. reflexivity. Qed.
-Example stale_answer_ends_new_session :
-  map (fun x => snd (fst x)) (run w_front 1000 h_stale)
+Example stale_answer_ended_new_session_v0 :
+  map (fun x => snd (fst x)) (run_v0 true false w_front 1000 h_stale)
   = [OUnit; OSent [SentPending 0 REDIRECT 0]; OBool true; OUnit; ODone; OIdentity [] []].
+Proof. vm_compute. reflexivity. Qed.
+Example stale_answer_unknown_now :
+  map (fun x => snd (fst x)) (run w_front 1000 h_stale)
+  = [OUnit; OSent [SentPending 0 REDIRECT 0]; OBool true; OUnit; OExn KeyErr; OIdentity [2] []].
+Proof. vm_compute. reflexivity. Qed.
+Example wrong_party_outputs_v0_now :
+  map (fun x => snd (fst x)) (run_v0 false true w_front 1000 h_wrong_party)
+  = [OUnit; OUnit; OSent [SentPending 0 REDIRECT 0; SentPending 1 POST 1]; OSent [SentPending 0 REDIRECT 2]]
+  /\ map (fun x => snd (fst x)) (run w_front 1000 h_wrong_party)
+  = [OUnit; OUnit; OSent [SentPending 0 REDIRECT 0; SentPending 1 POST 1]; OExn LogoutErr].
+Proof. split; vm_compute; reflexivity. Qed.
+Example moot_outputs :
+  map (fun x => snd (fst x)) (run w_three 1000 h_moot)
+  = [OUnit; OUnit; OUnit; OSent [SentPending 0 REDIRECT 0; SentPending 1 REDIRECT 1; SentPending 2 REDIRECT 2];
+     OSent [SentPending 1 REDIRECT 3; SentPending 2 REDIRECT 4]; OSent [SentPending 2 REDIRECT 5]; OExn ValueErr].
 Proof. vm_compute. reflexivity. Qed.
 
 (* ================================================================ non-vacuity *)
